@@ -29,6 +29,25 @@ def run (j : Json) : Except String Json := do
       let infs ← getList getRat (← fld j "infs")
       let recs ← getList getRat (← fld j "recs")
       pure (Json.mkObj [("ok", Json.bool true), ("hist", jHist (transform_sis tmin infs recs))])
+  | "subsample" =>
+    let report ← getList getRat (← fld j "report")
+    let times ← getList getRat (← fld j "times")
+    let series ← getList (getList (fun x => x.getInt?)) (← fld j "series")
+    let outs := series.map fun st => subsample report times st
+    match outs.head? with
+    | some (.error e) => pure (errObj e)
+    | _ =>
+      let res ← outs.mapM fun o => match o with
+        | .ok l => pure (jArr jInt l)
+        | .error e => .error e
+      pure (Json.mkObj [("ok", Json.bool true), ("outs", Json.arr res.toArray)])
+  | "timeshift" =>
+    let times ← getList getRat (← fld j "times")
+    let L ← getList getRat (← fld j "L")
+    let thr ← getRat (← fld j "thr")
+    match get_time_shift times L thr with
+    | .ok t => pure (Json.mkObj [("ok", Json.bool true), ("t", jRat t)])
+    | .error e => pure (errObj e)
   | _ =>
     let hs ← getList getHist (← fld j "hists")
     let statuses ← getList getStr (← fld j "statuses")
